@@ -96,7 +96,7 @@ type dsTy struct {
 	Unenforced bool          `json:"unenforced,omitempty"`
 	Props      []dsNamedProp `json:"props,omitempty"`
 	IntKey     bool          `json:"intKey,omitempty"`
-	Disc       string        `json:"disc,omitempty"`
+	Disc       string        `json:"disc"`
 	Inlined    bool          `json:"inlined,omitempty"`
 	Members    []dsMember    `json:"members,omitempty"`
 	NS         string        `json:"ns,omitempty"`
@@ -949,13 +949,50 @@ type dsCase struct {
 	Mode    string    `json:"mode,omitempty"`
 	DSchema *dsTy     `json:"dschema,omitempty"`
 	DPlugin *dsPlugin `json:"dplugin,omitempty"`
-	Schema  *hx.Ty    `json:"schema,omitempty"`
+	Schema  *dsHxTy   `json:"schema,omitempty"`
 	V       *hx.Val   `json:"v"`
 	Ext     *hx.Ext   `json:"ext,omitempty"`
 	JD      [][2]any  `json:"jd,omitempty"`
 	Fuel    int       `json:"fuel,omitempty"`
 	Note    string    `json:"note,omitempty"`
 }
+
+// dsHxTy is an hx.Ty whose JSON form always carries the discriminator name of a one-of (hx.Ty omits
+// empty strings, but the empty string is a legal discriminator field name in a received schema).
+type dsHxTy hx.Ty
+
+func (t *dsHxTy) MarshalJSON() ([]byte, error) {
+	b, err := json.Marshal((*hx.Ty)(t))
+	if err != nil {
+		return nil, err
+	}
+	var tree any
+	if err := json.Unmarshal(b, &tree); err != nil {
+		return nil, err
+	}
+	var fix func(x any)
+	fix = func(x any) {
+		switch v := x.(type) {
+		case map[string]any:
+			if v["t"] == "oneOf" {
+				if _, ok := v["disc"]; !ok {
+					v["disc"] = ""
+				}
+			}
+			for _, e := range v {
+				fix(e)
+			}
+		case []any:
+			for _, e := range v {
+				fix(e)
+			}
+		}
+	}
+	fix(tree)
+	return json.Marshal(tree)
+}
+
+func (t *dsHxTy) UnmarshalJSON(b []byte) error { return json.Unmarshal(b, (*hx.Ty)(t)) }
 
 type dsFinding struct {
 	Prop   string   `json:"prop"`
